@@ -106,7 +106,7 @@ class MapS:
         return out
 
     def _zero(self, E):
-        return self.v.flat(E, self.v.fresh(E, "zero")) if not isinstance(self.v, (IntS, TokS, RefS)) else [z3.IntVal(0)]
+        return self.v.flat(E, self.v.fresh(E, "zero")) if not isinstance(self.v, (IntS, TokS, RefS)) else [z3.IntVal(0)] * self.v.width()
 
     def width(self):
         return len(self.keys) * (1 + self.v.width())
@@ -184,17 +184,20 @@ class RefS:
         E.assumptions.append(z3.And(i >= 1, i <= len(self.objs)))          # structural: a slot in use refers to a known object
         return Guarded([(i == k + 1, o) for k, o in enumerate(self.objs)]) if len(self.objs) > 1 else self.objs[0]
 
-    def flat(self, E, v):
+    def index(self, E, v):
         if isinstance(v, Guarded):
-            alts = [(c, self.flat(E, x)[0]) for c, x in v.alts if not isinstance(x, Undefined)]
-            return [_ite_chain(alts)] if alts else [z3.IntVal(0)]
+            alts = [(c, self.index(E, x)) for c, x in v.alts if not isinstance(x, Undefined)]
+            return _ite_chain(alts) if alts else z3.IntVal(0)
         if v is None or isinstance(v, Undefined):
-            return [z3.IntVal(0)]
+            return z3.IntVal(0)
         for k, o in enumerate(self.objs):
             if o is v or (isinstance(v, Obj) and v.origin is not None and v.origin is o):
-                return [z3.IntVal(k + 1)]
+                return z3.IntVal(k + 1)
         E.overflow.append(TRUE)
-        return [z3.IntVal(-1)]
+        return z3.IntVal(-1)
+
+    def flat(self, E, v):
+        return [self.index(E, v)]
 
     def width(self):
         return 1
@@ -241,6 +244,8 @@ class Block:
         self.out = None
         self.held_after = None
         self.fn = None            # function whose `with` acquired the lock that starts this block
+        self.extra_locks = []     # (lock, pc): further locks acquired at the beginning of this block
+        self.acc_at_start = 0
 
 
 class Tracer(Full):
@@ -308,7 +313,15 @@ class Tracer(Full):
             for h in self.held:
                 if h != lid:
                     self.lock_edges.add((h, lid))
-            if lid not in self.held:
+            cur = self.blocks[-1] if self.blocks and self.blocks[-1].thread == self.cur_thread and self.blocks[-1].out is None else None
+            if lid not in self.held and self.held and cur is not None and cur.kind == "acquire" and len(self.accesses) == cur.acc_at_start:
+                # a further lock taken while holding one, nothing shared touched since the block began: acquisitions are right
+                # movers, both belong to the same atomic block (which is enabled only when both locks are free)
+                cur.extra_locks.append((lid, pc))
+                tid = z3.IntVal(self.thread_ids[self.cur_thread])
+                self.owner[lid] = tid if self.pybool(pc) is True else z3.If(pc, tid, self.tok(self.owner.get(lid, z3.IntVal(0))))
+                # the pre-state value of that lock's owner is the block's own pre variable
+            elif lid not in self.held:
                 self.yield_point(pc, "acquire", lid)
                 self.blocks[-1].fn = getattr(getattr(fr, "fn", None), "__name__", None)
             elif isinstance(v, _LOCK_TYPES[0]):
@@ -415,6 +428,7 @@ class Tracer(Full):
         b = Block(self.cur_thread, idx, pc, pre + own, kind, lock)
         b.nevents_start = carried if (carried and idx == 0) else len(self.events)
         b.first = idx == 0
+        b.acc_at_start = len(self.accesses)
         b.held_before = tuple(self.held)
         self.blocks.append(b)
         if kind == "acquire":
@@ -523,11 +537,11 @@ class Ilv:
                     step = [G[t + 1][x] == z3.If(b.pc, b.out[x], G[t][x]) for x in range(n)]
                     guard = []
                     if b.kind == "acquire":
-                        li = E.all_locks.index(b.lock) if b.lock in E.all_locks else None
-                        if li is not None:
-                            tid = E.thread_ids[b.thread]
-                            own = G[t][n - nl + li]
-                            guard.append(z3.Implies(b.pc, z3.Or(own == 0, own == tid)))
+                        tid = E.thread_ids[b.thread]
+                        for lk, lpc in [(b.lock, TRUE)] + list(b.extra_locks):
+                            if lk in E.all_locks:
+                                own = G[t][n - nl + E.all_locks.index(lk)]
+                                guard.append(z3.Implies(z3.And(b.pc, lpc), z3.Or(own == 0, own == tid)))
                     s.append(z3.Implies(tau[i] == t, z3.And(*(bind + step + guard))))
             final = G[K]
         else:
@@ -536,11 +550,12 @@ class Ilv:
             for i, b in enumerate(B):
                 s += [b.pre[x] == F[x](tau[i]) for x in range(n)]
                 s += [F[x](tau[i] + 1) == z3.If(b.pc, b.out[x], b.pre[x]) if not z3.is_true(b.pc) else F[x](tau[i] + 1) == b.out[x] for x in range(n)]
-                if b.kind == "acquire" and b.lock in E.all_locks:
-                    li = E.all_locks.index(b.lock)
+                if b.kind == "acquire":
                     tid = E.thread_ids[b.thread]
-                    own = b.pre[n - nl + li]
-                    s.append(z3.Implies(b.pc, z3.Or(own == 0, own == tid)))
+                    for lk, lpc in [(b.lock, TRUE)] + list(b.extra_locks):
+                        if lk in E.all_locks:
+                            own = b.pre[n - nl + E.all_locks.index(lk)]
+                            s.append(z3.Implies(z3.And(b.pc, lpc), z3.Or(own == 0, own == tid)))
             final = [F[x](K) for x in range(n)]
             G = None
         self.tau, self.G, self.K, self.final_state = tau, G, K, final
@@ -711,8 +726,9 @@ class Ilv:
             s.set("timeout", 20000)
             s.add(*self.E.assumptions)
             s.add(pc)
-            if str(s.check()) != "unsat":
-                out.append(f"thread {th} acquires the non re-entrant {name} while holding it")
+            msg = f"thread {th} acquires the non re-entrant {name} while holding it"
+            if msg not in out and str(s.check()) != "unsat":
+                out.append(msg)
         return out
 
     def lock_cycle(self):
